@@ -39,6 +39,9 @@ def gen_case(rng, tier):
         moves = [{"m": "init", "paths": [list(p) for p in gfi.pick_subset(rng, paths, rng.choice(["some", "one", "all", "none"]))],
                   "rseed": rng.randint(0, 2**30)}]
         moves[0]["prop"] = pick_proposal(rng, c["model"], moves[0]["paths"])
+        if rng.random() < 0.4:
+            # a pilot run of the same init (same model / proposal objects) with another particle count
+            moves[0]["pilot"] = rng.choice([k for k in (1, 2, 3, 5, 6) if k != n])
         for _ in range(rng.randint(1, 4 if tier == "quick" else 7)):
             k = rng.choice(["extend", "extend", "resample", "rejuvenate", "change"])
             mv = {"m": k, "rseed": rng.randint(0, 2**30)}
@@ -174,7 +177,14 @@ def run_machine(case, viol, probes):
                 probes["custom_proposal"] = probes.get("custom_proposal", 0) + 1
                 if len(pa) + len(cp) < len(ref.model_paths(model)):
                     probes["partial_proposal"] = probes.get("partial_proposal", 0) + 1
+            if mv.get("pilot"):
+                probes["pilot_init"] = 1
+                run_scripted(lambda: init(gf, (case["h"],), const(mv["pilot"]), gfi.to_jnp(cons), pgf), gfi.RefScript(case["sseed"] + 5))
             parts, _ = run_scripted(lambda: init(gf, (case["h"],), const(n), gfi.to_jnp(cons), pgf), script)
+            if np.shape(parts.log_weights) != (n,):
+                viol.append(V("wrong_count", "particle_count_constant",
+                              f"init with {n} particles returned log_weights of shape {np.shape(parts.log_weights)}", **sig))
+                return evals
             w_ref = np.zeros(n)
             for i in range(n):
                 chi = gfi.np_choices(lane(parts.traces, i))
